@@ -167,6 +167,14 @@ def tokens_of_text(text):
 
 
 # ------------------------------------------------------------------ implementation side
+def _set_tokens(out, raw):
+    """the written file as rows of binary64 tokens for the model; a file that is not such a table is recorded, not raised"""
+    try:
+        out["tokens"] = tokens_of_text(raw.decode("utf-8"))
+    except Exception as e:  # noqa
+        out["garbled"] = "%s: %s" % (type(e).__name__, str(e)[:120])
+
+
 def _first_diff(names, want, got):
     for nm, w, g in zip(names, want, got):
         w = np.asarray(w, dtype=float)
@@ -224,7 +232,7 @@ def impl_tum(case):
            "input_unchanged": arr_bits_equal(traj.timestamps, st) and arr_bits_equal(traj.positions_xyz, xyz)
            and arr_bits_equal(traj.orientations_quat_wxyz, q)}
     if len(st) <= SMALL:
-        out["tokens"] = tokens_of_text(raw.decode("utf-8"))
+        _set_tokens(out, raw)
         out["read"] = [[hexf(r.timestamps[i]), [hexf(v) for v in r.positions_xyz[i]], [hexf(v) for v in r.orientations_quat_wxyz[i]]]
                        for i in range(r.num_poses)]
     return out
@@ -247,7 +255,7 @@ def impl_kitti(case):
            "diff": _first_diff(["pose %d" % i for i in range(len(poses))], poses, got) if len(got) == len(poses) else "pose count",
            "input_unchanged": all(arr_bits_equal(a, b) for a, b in zip(path.poses_se3, poses))}
     if len(poses) <= SMALL:
-        out["tokens"] = tokens_of_text(raw.decode("utf-8"))
+        _set_tokens(out, raw)
         out["read"] = [[hexf(v) for v in p.ravel()] for p in got]
     return out
 
@@ -279,6 +287,21 @@ def _member_class(name):
         if name.endswith(suffix):
             return code, name[:-len(suffix)]
     return None, name
+
+
+def _parse_member(code, stem, data, dd):
+    if code == 0:
+        return [0, stem, "info", json.loads(data.decode("utf-8")) == dd["info"]]
+    if code == 1:
+        toks = json.loads(data.decode("utf-8"), parse_float=lambda s: ("tok", s), parse_int=lambda s: ("tok", s),
+                          parse_constant=lambda s: ("tok", s))
+        return [1, stem, "stats", [[k, hexf(float(v[1]))] for k, v in toks.items()]]
+    if code == 2:
+        a = np.load(io.BytesIO(data))
+        return [2, stem, "npy", [hexf(x) for x in np.asarray(a, dtype=float).ravel()]]
+    if code in (3, 4):
+        return [code, stem, "text", tokens_of_text(data.decode("utf-8"))]
+    return [9, stem, "unknown", None]
 
 
 def impl_res(case):
@@ -334,24 +357,16 @@ def impl_res(case):
                 break
     out = {"diff": diff}
     # the archive as written, for the model
+    # (a member that evo wrote but that cannot be parsed as what its name says is recorded as "garbled", never raised:
+    # what evo writes is the implementation's output, not the harness's)
     members = []
     with zipfile.ZipFile(io.BytesIO(raw)) as z:
         for name in z.namelist():
             code, stem = _member_class(name)
-            data = z.read(name)
-            if code == 0:
-                members.append([0, stem, "info", json.loads(data.decode("utf-8")) == dd["info"]])
-            elif code == 1:
-                toks = json.loads(data.decode("utf-8"), parse_float=lambda s: ("tok", s), parse_int=lambda s: ("tok", s),
-                                  parse_constant=lambda s: ("tok", s))
-                members.append([1, stem, "stats", [[k, hexf(float(v[1]))] for k, v in toks.items()]])
-            elif code == 2:
-                a = np.load(io.BytesIO(data))
-                members.append([2, stem, "npy", [hexf(x) for x in np.asarray(a, dtype=float).ravel()]])
-            elif code in (3, 4):
-                members.append([code, stem, "text", tokens_of_text(data.decode("utf-8"))])
-            else:
-                members.append([9, stem, "unknown", None])
+            try:
+                members.append(_parse_member(code, stem, z.read(name), dd))
+            except Exception as e:  # noqa
+                members.append([code if code is not None else 9, stem, "garbled", "%s: %s" % (type(e).__name__, str(e)[:120])])
     out["members"] = members
     out["loaded"] = {"stats": [[k, hexf(v)] for k, v in got.stats.items()],
                      "arrays": [[k, [hexf(x) for x in np.asarray(a, dtype=float).ravel()]] for k, a in got.np_arrays.items()],
@@ -478,6 +493,8 @@ def expr(case, out):
     small = n_poses(case) <= SMALL if k != "res" else True
     if "error" in out or not small or (k in ("tum", "kitti") and "tokens" not in out):
         return "(0%nat, 0%nat)"
+    if k == "res" and any(m[2] == "garbled" for m in out["members"]):
+        return "(0%nat, 0%nat)"
     if k == "tum":
         st, xyz, q = tum_arrays(case)
         return "(1%%nat, (write_tum %s %s, tps_view (read_tum %s %s)))" % (ID_FN, _ctp_list(st, xyz, q), SOME_FN, _crows(out["tokens"]))
@@ -560,12 +577,18 @@ def judge(case, val, out):
         if out.get("frame_id") != case.get("frame_id", "map"):
             return {"kind": "spec-violation", "failing_input": True, "detail": "frame id %r read back as %r" % (case.get("frame_id"), out.get("frame_id"))}
     # ---- model correspondence (small cases)
+    def mvi(what, detail):
+        return {"kind": "model-vs-impl", "failing_input": False, "correspondence": what, "detail": detail}
+    if out.get("garbled"):
+        return mvi("FileFmt.write_" + k, "the written file is not a space separated table of numbers (%s)" % out["garbled"])
+    if k == "res":
+        for code, stem, kind, payload in out["members"]:
+            if kind == "garbled":
+                return mvi("FileFmt.save_res", "archive member %r (class %r) as written by save_res_file cannot be parsed: %s; "
+                           "the model writes one row of numbers per pose" % (stem, code, payload))
     flag, body = val
     if flag == 0:
         return None
-
-    def mvi(what, detail):
-        return {"kind": "model-vs-impl", "failing_input": False, "correspondence": what, "detail": detail}
     if k == "tum":
         w, r = body
         if [_hl(row) for row in w] != out["tokens"]:
@@ -723,6 +746,59 @@ def corpus():
             cs.append({"kind": "res", "variant": v, "load_trajectories": lt,
                        "data": {"info": info, "stats": stats, "arrays": arrays, "trajs": trajs}})
     cs.append({"kind": "res", "variant": "str", "load_trajectories": True, "data": {"info": {}, "stats": [], "arrays": [], "trajs": []}})
+    cs.extend(res_order_cases())
+    return cs
+
+
+def _signed_tum(n, sign):
+    """n poses whose coordinates and quaternion components all carry the given sign: same pose count, different text length"""
+    st = [hexf(1403636580.5 + 0.25 * i) for i in range(n)]
+    xyz = [[hexf(sign * (1.0 + i + 0.125 * j)) for j in range(3)] for i in range(n)]
+    q = [[hexf(sign * 0.5)] * 4 for _ in range(n)]
+    return {"type": "tum", "data": {"stamps": st, "xyz": xyz, "quat": q}}
+
+
+def _signed_kitti(n, sign):
+    poses = []
+    for i in range(n):
+        m = np.eye(4)
+        m[:3, :] = sign * (1.0 + i + 0.0625 * np.arange(12).reshape(3, 4))
+        poses.append([hexf(v) for v in m.ravel()])
+    return {"type": "kitti", "data": {"poses": poses}}
+
+
+def res_order_cases():
+    """result archives with two (three) embedded trajectories / arrays whose serialised lengths differ, in both orders
+    (reference + estimate as evo_ape/evo_rpe --save_results store them with save_traj_in_zip): every member must hold
+    exactly its own trajectory whatever was written before it"""
+    cs = []
+    info = {"title": "two embedded trajectories", "ref_name": "ref.tum", "est_name": "est.tum"}
+    stats = [["rmse", hexf(0.1)]]
+
+    def gen(ty, seed, n):
+        return {"type": ty, "gen": {"seed": seed, "n": n, "style": "epoch" if ty == "tum" else "rot"}}
+    i = 0
+    for ta in ("tum", "kitti"):
+        for tb in ("tum", "kitti"):
+            for na, nb in ((4, 1), (1, 4), (3, 2), (2, 3), (12, 5)):
+                arrays = [["error_array", [hexf(0.1 * j) for j in range(na + 2)]], ["timestamps", [hexf(1.5 * j) for j in range(nb)]]]
+                cs.append({"kind": "res", "variant": VARIANTS[i % 4], "load_trajectories": i % 5 != 4,
+                           "data": {"info": info, "stats": stats, "arrays": arrays,
+                                    "trajs": [["traj_ref", gen(ta, 40 + i, na)], ["traj_est", gen(tb, 80 + i, nb)]]}})
+                i += 1
+    # the same number of poses, only the count of minus signs differs (a few characters)
+    for mk in (_signed_tum, _signed_kitti):
+        for n in (1, 3):
+            for sa, sb in ((-1.0, 1.0), (1.0, -1.0)):
+                cs.append({"kind": "res", "variant": VARIANTS[i % 4], "load_trajectories": True,
+                           "data": {"info": info, "stats": stats, "arrays": [], "trajs": [["traj_ref", mk(n, sa)], ["traj_est", mk(n, sb)]]}})
+                i += 1
+    # three trajectories long / short / middle, and the mixed pair with equal pose counts
+    cs.append({"kind": "res", "variant": "memory", "load_trajectories": True,
+               "data": {"info": info, "stats": stats, "arrays": [],
+                        "trajs": [["a", gen("tum", 7, 5)], ["b", gen("kitti", 8, 1)], ["c", gen("tum", 9, 3)]]}})
+    cs.append({"kind": "res", "variant": "str", "load_trajectories": True,
+               "data": {"info": info, "stats": stats, "arrays": [], "trajs": [["a", _signed_kitti(2, -1.0)], ["b", _signed_tum(3, 1.0)]]}})
     return cs
 
 
@@ -879,14 +955,15 @@ def run(ctx, replay=None, proofs_ok=True):
         hist[b] = hist.get(b, 0) + 1
     cov = {"evaluations": stats["evaluations"], "distinct_nontrivial": stats["distinct_nontrivial"],
            "rule": "corpus (EuRoC-like epoch stamps with ns fractions, 1e-300/1e300/5e-324/-0.0, unicode info, dotted and unicode "
-                   "names, empty result) + random TUM / KITTI / DataFrame / ROS1-bag / result-zip cases over hard scalar classes "
+                   "names, empty result, result archives with two or three embedded trajectories / arrays of different serialised "
+                   "lengths in both orders incl. equal pose counts that differ only in minus signs) + random TUM / KITTI / DataFrame / ROS1-bag / result-zip cases over hard scalar classes "
                    "(17-digit, 1e-300..1e300, subnormals, special doubles, neighbours of short decimals and of powers of two, UTM "
                    "sizes) x {str path, pathlib.Path, open handle, in-memory handle}; every case: reader output == writer input "
                    "bit for bit; cases with <= %d poses also: written file == model writer, model reader(file) == evo reader; "
                    "distinct by input; non-trivial = at least two poses (or a result archive) and no error" % SMALL,
            "samples": cases[:2] + cases[-2:], "input_distribution": hist, "model_evaluated_cases": modelled,
            "regimes": {"exact": stats["evaluations"], "rounded": 0, "fragile": 0}, "disagreements": stats["disagreements"],
-           "largest_trajectory": max(n_poses(c) for c in cases if c["kind"] != "res"), "exhaustive": False}
+           "largest_trajectory": max((n_poses(c) for c in cases if c["kind"] != "res"), default=0), "exhaustive": False}
     return {"failures": failures, "coverage": cov}
 
 
